@@ -5,7 +5,7 @@ from ..core import hexs, unhex, sx_parse
 from ..runner import Stream
 
 ID = "C12"
-AREAS = ["help"]
+AREAS = ["help", "parse"]
 RULE = ("random command trees (depth <= 3) mixing short-only / long-only / short+long flags, Count flags, options with "
         "env variables (set / unset / empty, hide_env, hide_env_values), default values (with whitespace, quotes, backslashes; "
         "hide_default_value), visible and hidden aliases / short aliases, global flags and options inherited by the subcommand levels, "
@@ -1125,6 +1125,235 @@ def nontrivial(case, impl):
     return "(row " in impl or len(re.findall(r"\(usage ([^)]*)\)", impl)[0].split()) > 1 if "(usage" in impl else False
 
 
+# --------------------------------------------------------------------------------- fourth pass: `help <path>` and the help
+# flag behind chains WITH arguments, on the parser (`parse` mode of the shared harness / parse model driver)
+HS_LETTERS = "abcdefgijklmnopqrstuvwxyz"      # no h: nothing but `help` starts with h
+
+
+def _hs_name(rng, used):
+    while True:
+        n = "".join(rng.choice(HS_LETTERS) for _ in range(rng.choice([2, 3, 4, 5, 6])))
+        if n not in used and not any(u.startswith(n) or n.startswith(u) for u in used if rng.random() < 0.7):
+            used.add(n)
+            return n
+
+
+def _hs_cmd(rng, name, depth, used_opts):
+    c = {"name": name, "subs": [], "aliases": [], "flag": None, "opt": None, "set": []}
+    if rng.random() < 0.7:
+        f = _hs_name(rng, used_opts)
+        c["flag"] = f
+    if rng.random() < 0.6:
+        o = _hs_name(rng, used_opts)
+        c["opt"] = o
+    if depth > 0:
+        used = set()
+        for _ in range(rng.choice([0, 1, 2, 2, 3])):
+            sc = _hs_cmd(rng, _hs_name(rng, used), depth - 1, used_opts)
+            for _ in range(rng.choice([0, 0, 1, 1, 2])):
+                sc["aliases"].append((_hs_name(rng, used), rng.random() < 0.5))
+            c["subs"].append(sc)
+    return c
+
+
+def _hs_sx(c):
+    out = "(cmd " + hexs(c["name"].encode())
+    for st in c["set"]:
+        out += " (set %s)" % st
+    for (a, vis) in c["aliases"]:
+        out += " (alias %s%s)" % (hexs(a.encode()), " v" if vis else "")
+    if c["flag"]:
+        out += " (arg %s (long %s) (action settrue))" % (hexs(c["flag"].encode()), hexs(c["flag"].encode()))
+    if c["opt"]:
+        out += " (arg %s (long %s) (action set))" % (hexs(c["opt"].encode()), hexs(c["opt"].encode()))
+    for sc in c["subs"]:
+        out += " (sub %s)" % _hs_sx(sc)
+    return out + ")"
+
+
+def _hs_level_args(rng, c):
+    out = []
+    if c["flag"] and rng.random() < 0.5:
+        out.append("--" + c["flag"])
+    if c["opt"] and rng.random() < 0.5:
+        if rng.random() < 0.5:
+            out.append("--%s=v%d" % (c["opt"], rng.randrange(10)))
+        else:
+            out += ["--" + c["opt"], "v%d" % rng.randrange(10)]
+    rng.shuffle(out) if len(out) == 2 and not any(t.startswith("v") for t in out) else None
+    return out
+
+
+def _hs_word(rng, c, infer):
+    """a word aimed at the subcommands of c: (token, kind)"""
+    if not c["subs"]:
+        return rng.choice(["zz", "q"]), "garbage"
+    sc = rng.choice(c["subs"])
+    r = rng.random()
+    if r < 0.35:
+        return sc["name"], "name"
+    if r < 0.65 and sc["aliases"]:
+        return rng.choice(sc["aliases"])[0], "alias"
+    if r < 0.8 and sc["aliases"]:
+        a = rng.choice(sc["aliases"])[0]
+        return a[:rng.randrange(1, len(a))] if len(a) > 1 else a, "alias-prefix"
+    if r < 0.92:
+        n = sc["name"]
+        return n[:rng.randrange(1, len(n))] if len(n) > 1 else n, "name-prefix"
+    return rng.choice(["zz", "help", "q"]), "garbage"
+
+
+def gen_help_sub_paths(tier, rng, n):
+    cases = []
+    while len(cases) < n:
+        root = _hs_cmd(rng, "p", rng.choice([1, 2, 2, 3]), set())
+        infer = rng.random() < 0.5
+        if infer:
+            root["set"].append("infer_subcommands")
+        if rng.random() < 0.06:
+            root["set"].append("disable_help_subcommand")
+        sx = _hs_sx(root)
+        for _ in range(6):
+            argv = ["p"]
+            cur = root
+            argv += _hs_level_args(rng, cur)
+            for _ in range(rng.choice([0, 0, 1, 1, 2])):          # descend by exact names / aliases
+                if not cur["subs"]:
+                    break
+                sc = rng.choice(cur["subs"])
+                argv.append(rng.choice([sc["name"]] + [a for (a, _) in sc["aliases"]]))
+                cur = sc
+                argv += _hs_level_args(rng, cur)
+            end = rng.random()
+            if end < 0.7:
+                argv.append(rng.choice(["help", "help", "help", "he", "hel", "h"]) if infer else "help")
+                lv = cur
+                for _ in range(rng.choice([0, 1, 1, 2, 2, 3])):
+                    w, kind = _hs_word(rng, lv, infer)
+                    argv.append(w)
+                    nxt = [s for s in lv["subs"] if s["name"] == w or w in [a for (a, _) in s["aliases"]]]
+                    if nxt:
+                        lv = nxt[0]
+            else:
+                argv.append(rng.choice(["--help", "-h"]))
+                if rng.random() < 0.4:
+                    argv.append(rng.choice(["--bogus", "zz", "--help"]))
+            cases.append("(parse %s (argv%s))" % (sx, "".join(" " + hexs(t.encode()) for t in argv)))
+    return cases[:n]
+
+
+def _hs_read(case):
+    """reference reading, from the documentation of the help subcommand / help flag; None = no verdict.
+    -> (expected canonical path or None, saw_help)"""
+    from .. import parse_streams as P
+    cmd, argv = P.decode_case(case)
+    toks = [t.decode() for t in argv[1:]]
+    settings = set(cmd["settings"])
+    infer = "infer_subcommands" in settings
+    if "disable_help_subcommand" in settings or "disable_help_flag" in settings:
+        return None
+    cur, names, i = cmd, [], 0
+
+    def resolve(c, w):
+        hit = [s for s in c["subs"] if s["name"].decode() == w or w in [a.decode() for (a, _) in s["aliases"]]]
+        return hit[0] if len(hit) == 1 else None
+
+    while i < len(toks):
+        t = toks[i]
+        if t in ("--help", "-h"):
+            return names
+        if t.startswith("--"):
+            body = t[2:]
+            key = body.split("=", 1)[0]
+            a = [x for x in cur["args"] if x.get("long", b"").decode() == key]
+            if not a:
+                return None
+            if a[0].get("action") == "set" and "=" not in body:
+                i += 1
+            i += 1
+            continue
+        if t.startswith("-"):
+            return None
+        is_help = t == "help" or (infer and t != "" and "help".startswith(t))
+        if is_help:
+            if not cur["subs"] or any(s["name"].decode().startswith("h") or any(a.decode().startswith("h") for (a, _) in s["aliases"])
+                                      for s in cur["subs"]):
+                return None
+            lv, path = cur, []
+            for w in toks[i + 1:]:
+                if w == "help" and lv["subs"]:
+                    return None                      # the generated help subcommand itself: no verdict
+                nxt = resolve(lv, w)
+                if nxt is None:
+                    return None                      # a word that is no exact name / alias: an error, not judged here
+                path.append(nxt["name"].decode())
+                lv = nxt
+            return names + path
+        nxt = resolve(cur, t)
+        if nxt is None:
+            return None
+        names.append(nxt["name"].decode())
+        cur = nxt
+        i += 1
+    return None
+
+
+def help_sub_oracle(case, impl):
+    if impl is None or impl.startswith("PANIC") or impl.startswith("ABORT"):
+        return "help request panics: %s" % (impl or "no result")[:160]
+    try:
+        exp = _hs_read(case)
+    except Exception:
+        return None
+    if exp is None:
+        return None
+    p = impl.split(" ")
+    if p[0] != "err" or p[1] != "DisplayHelp":
+        return "a help request for level `%s` did not produce a help screen: %s" % (" ".join(["p"] + exp), impl[:120])
+    head = unhex(p[4]).decode("utf-8", "replace") if len(p) > 4 else ""
+    want = "Usage: " + " ".join(["p"] + exp)
+    if not (head == want or head.startswith(want + " ")):
+        return "help of the wrong level: expected `%s ..`, got `%s`" % (want, head)
+    return None
+
+
+def help_sub_project(result):
+    if result is None:
+        return "none"
+    p = result.split(" ")
+    if p[0] == "err":
+        return "err " + (p[1] if p[1] in ("DisplayHelp", "DisplayVersion") else "other")
+    return p[0]
+
+
+def help_sub_nontrivial(case, impl):
+    try:
+        return _hs_read(case) is not None
+    except Exception:
+        return False
+
+
+def describe_help_sub(cases):
+    d = {"cases": len(cases), "judged (reference reading has a verdict)": 0, "help subcommand": 0, "help flag": 0,
+         "infer_subcommands": sum(1 for c in cases if "infer_subcommands" in c), "with alias on the line": 0}
+    for c in cases:
+        try:
+            v = _hs_read(c)
+        except Exception:
+            v = None
+        if v is not None:
+            d["judged (reference reading has a verdict)"] += 1
+        toks = [unhex(t).decode() for t in re.search(r"\(argv([^()]*)\)", c).group(1).split()]
+        if any(t in ("--help", "-h") for t in toks):
+            d["help flag"] += 1
+        elif any(t != "" and "help".startswith(t) for t in toks[1:]):
+            d["help subcommand"] += 1
+        als = {unhex(a).decode() for a in re.findall(r"\(alias (x[0-9a-f]*)", c)}
+        if als & set(toks):
+            d["with alias on the line"] += 1
+    return d
+
+
 def describe(cases, name):
     d = {"cases": len(cases)}
     for k in ("short", "long", "usage", "flag-h", "flag-help", "sub-help"):
@@ -1173,6 +1402,7 @@ def streams(tier, rng):
         Stream("help-f32", ["(helpf32 %d %d)" % (t, w) for (t, w) in ([(300, 300)] if q else [(1200, 1200), (70000, 40)])],
                oracle=f32_oracle, area=None, nontrivial=lambda c, r: True),
     ]
+    hsp = None
     if not q:
         rnd2 = gen_random(tier, rng, 12000)
         adv2 = gen_adversarial(tier, rng, 6000)
@@ -1182,6 +1412,10 @@ def streams(tier, rng):
             Stream("help-adversarial-release", adv2, oracle=oracle, area="help", project=project, nontrivial=nontrivial,
                    profile="release", describe=describe(adv2, "adversarial-release")),
         ]
+    # generated last: the cases of the streams above do not depend on it
+    hsp = gen_help_sub_paths(tier, rng, 600 if q else 12000)
+    out.append(Stream("help-subcommand-paths", hsp, oracle=help_sub_oracle, area="parse", project=help_sub_project,
+                      nontrivial=help_sub_nontrivial, describe=describe_help_sub(hsp)))
     return out
 
 
